@@ -448,7 +448,9 @@ func (w *World) lockAnalysis() *lckResult {
 		return o != nil && (o == gm || o == am || o == jw)
 	}
 	rmwWant := lr.wantState
-	lr.wantState = func(in ssa.Instruction) bool { return rmwWant(in) || isEventChanOp(in) != "" || isIndexClosedTest(in) }
+	lr.wantState = func(in ssa.Instruction) bool {
+		return rmwWant(in) || isEventChanOp(in) != "" || isIndexClosedTest(in) || isCallTo(in, "encoding/gob", "Encoder.Encode") || isSharedArrayElemStore(in) != ""
+	}
 	lr.g = w.VTA()
 	for fn, node := range lr.g.Nodes {
 		if fn == nil || !inModule(fn) || len(fn.Blocks) == 0 {
@@ -2568,5 +2570,146 @@ func ruleLCK8(w *World, r *Report) {
 	r.Count("array_publications", n)
 	if n == 0 {
 		r.Und("LCK-8", "anchor:array-publication", "", "no function publishes a freshly allocated node/norm array: growth moved")
+	}
+}
+
+// ruleLCK9: DB.Snapshot serialises shared objects by reflection (gob), which no field-level guard can see: the graph
+// nodes it encodes are the live ones (the per-shard copy is shallow), the KV map and the per-index maps are the live
+// maps. The encode must therefore run while the snapshot still holds every lock class under which those objects are
+// mutated.
+func ruleLCK9(w *World, r *Report, lr *lckResult) {
+	r.Doc("LCK-9", "DB.Snapshot calls the gob encoder while it holds the graph-shard locks, the KV store lock and the per-index locks: the objects it serialises by reflection are the live ones", 3)
+	fi := w.Func("pkg/core", "DB.Snapshot")
+	if fi == nil {
+		r.Und("LCK-9", "anchor:DB.Snapshot", "", "anchor lost")
+		return
+	}
+	fn := w.SSAFunc(fi.Obj)
+	encs := findInstrs(fn, func(in ssa.Instruction) bool { return isCallTo(in, "encoding/gob", "Encoder.Encode") })
+	if len(encs) == 0 {
+		r.Und("LCK-9", "DB.Snapshot:encode", w.Pos(fi.Decl.Pos()), "DB.Snapshot no longer encodes with encoding/gob (shape not recognised)")
+		return
+	}
+	mutexOp := func(in ssa.Instruction, names ...string) (string, bool) {
+		c, ok := in.(*ssa.Call)
+		if !ok {
+			return "", false
+		}
+		o := calleeObj(&c.Call)
+		if o == nil || o.Pkg() == nil || o.Pkg().Path() != "sync" || len(c.Call.Args) == 0 {
+			return "", false
+		}
+		hit := false
+		for _, n := range names {
+			if o.Name() == n {
+				hit = true
+			}
+		}
+		if !hit {
+			return "", false
+		}
+		k, ok := lr.resolveLock(fn, c.Call.Args[0], 0)
+		if !ok {
+			return "", false
+		}
+		return k.class, true
+	}
+	for _, cls := range []string{"core.GraphShard.mu", "core.KVStore.mu", "core.DB.indexLocks[*]"} {
+		cls := cls
+		isAcq := func(in ssa.Instruction) bool { c, ok := mutexOp(in, "RLock", "Lock"); return ok && c == cls }
+		isRel := func(in ssa.Instruction) bool { c, ok := mutexOp(in, "RUnlock", "Unlock"); return ok && c == cls }
+		for i, e := range encs {
+			key := fmt.Sprintf("DB.Snapshot:encode#%d:holds:%s", i+1, cls)
+			if st, ok := lr.mustAt[e]; ok && mustHoldsClass(st, cls) {
+				r.Ok("LCK-9", key, w.Pos(e.Pos()), "held across the encode (lockset)")
+				continue
+			}
+			// locks taken in a loop (all shards, all indexes): acquired before the encode and not released — outside a
+			// deferred function — on any path from an acquisition to the encode
+			acqs := findInstrs(fn, isAcq)
+			ee := e
+			isEnc := func(in ssa.Instruction) bool { return in == ee }
+			reaches := false
+			for _, a := range acqs {
+				if f, _ := (pathQuery{fn: fn, target: isEnc}).find(posOf(a)); f {
+					reaches = true
+				}
+			}
+			if !reaches {
+				r.Bad("LCK-9", key, w.Pos(e.Pos()), "DB.Snapshot encodes without having taken "+cls+": gob walks the live objects by reflection while their writers mutate them — a fatal 'concurrent map iteration and map write', or a snapshot file that is not a state the database was ever in")
+				continue
+			}
+			bad := false
+			var wit []ssa.Instruction
+			for _, a := range acqs {
+				if f, wv := (pathQuery{fn: fn, target: isEnc}).findVia(posOf(a), isRel); f {
+					bad, wit = true, wv
+				}
+			}
+			r.Cond(!bad, "LCK-9", key, w.Pos(e.Pos()), "taken before the encode and released only afterwards (deferred)", "DB.Snapshot releases "+cls+" before it encodes: gob walks the live objects by reflection (the per-shard copy is shallow) while their writers mutate them — a fatal 'concurrent map iteration and map write', or a snapshot file that is not a state the database was ever in (half-recorded links)", w.witness(wit)...)
+		}
+	}
+}
+
+// isSharedArrayElemStore: a store into an element of the array handed out by (*Index).getNodes / getNorms
+// (`h.getNorms()[id] = …`). Returns "nodes"/"norms", or "".
+func isSharedArrayElemStore(in ssa.Instruction) string {
+	st, ok := in.(*ssa.Store)
+	if !ok {
+		return ""
+	}
+	ia, ok := st.Addr.(*ssa.IndexAddr)
+	if !ok {
+		return ""
+	}
+	for _, leaf := range valueRoots(ia.X) {
+		if c, ok := leaf.(*ssa.Call); ok {
+			if g := c.Call.StaticCallee(); g != nil {
+				switch fnName(g) {
+				case "pkg/core/hnsw.(*Index).getNodes":
+					return "nodes"
+				case "pkg/core/hnsw.(*Index).getNorms":
+					return "norms"
+				}
+			}
+		}
+	}
+	return ""
+}
+
+// ruleLCK8b: the other half of LCK-8. growNodes throws the old node/norm array away under all shard locks and
+// metaMu; a writer of one element is safe only if it holds that node's shard lock, or metaMu exclusively (growth
+// happens under metaMu), while it stores.
+func ruleLCK8b(w *World, r *Report, lr *lckResult) {
+	r.Doc("LCK-8b", "every store into an element of the shared node/norm array (h.getNodes()[i] = …, h.getNorms()[i] = …) is made while holding a node shard lock or metaMu exclusively — the locks under which growNodes replaces the array", 4)
+	type site struct {
+		in   ssa.Instruction
+		kind string
+	}
+	var sites []site
+	for in := range lr.mustAt {
+		if k := isSharedArrayElemStore(in); k != "" {
+			sites = append(sites, site{in, k})
+		}
+	}
+	sort.Slice(sites, func(i, j int) bool { return sites[i].in.Pos() < sites[j].in.Pos() })
+	per := map[string]int{}
+	for _, s := range sites {
+		fn := s.in.Parent()
+		root := fn
+		for root.Parent() != nil {
+			root = root.Parent()
+		}
+		if lr.unreachableHelper(root) {
+			continue
+		}
+		if o, ok := root.Object().(*types.Func); ok && (o.Name() == "LoadSnapshotData" || o.Name() == "growNodes") {
+			continue // the index under construction is not shared yet; growNodes is the publisher itself (LCK-8)
+		}
+		name := shortFn(root)
+		per[name+s.kind]++
+		st := lr.mustAt[s.in]
+		ok := mustHoldsClass(st, "hnsw.Index.shardsMu[*]") || holdsClassW(st, "hnsw.Index.metaMu")
+		r.Cond(ok, "LCK-8b", fmt.Sprintf("%s:%s-element-store#%d", name, s.kind, per[name+s.kind]), w.Pos(s.in.Pos()), "stored under the node's shard lock or exclusive metaMu", name+" stores into an element of the shared "+s.kind+" array holding neither a node shard lock nor metaMu exclusively: a growth that copies the array and publishes the copy in between loses the write (a node that cannot be read back, a norm of 0)")
 	}
 }
